@@ -12,8 +12,8 @@ pub mod a7 {
       relation r1(i64);
       relation r2(i64, i64);
       relation r3(i64, i64);
-      relation r4(i64, i64);
-      relation r5(i64, i64);
+      relation r4(i64);
+      relation r5(i64);
       r1(v0) <-- let v0 = 0, r0(3, v0);
       r2(v0, 3) <-- r1(v0), if ((*v0) <= 6), r1(v0);
       r3(3, v0) <-- for v0 in [0, 1], r2(v1, 3), r2(v2, v1);
@@ -23,8 +23,8 @@ pub mod a7 {
       r2((v0 + 1), 2) <-- if let Some(v0) = Some(2), r0(v0, v0), if let Some(v1) = Some(v0), r2(v0, (v1 + 0)) if (v1 != 3), if (v0 < 6);
       r1(0) <-- r3(v0, v1);
       r1(v2) <-- r0(v0, v1), r0(v2, v3), if ((*v3) != 0);
-      r4(v0, 0) <-- r0(v0, v1), agg () = not() in r2(2, _);
-      r5(v1, v21) <-- r2(v0, v1), agg v21 = sum(v20) in r3(v20, (*v1));
+      r4(v0) <-- r0(v0, v1), agg () = not() in r2((*v1), _);
+      r5(v0) <-- r2(v0, v1), r3(v1, v1), agg v21 = sum(v20) in r3(_, v20);
    }
    pub struct Inst { p: Prog, pool: Option<ascent::rayon::ThreadPool> }
    pub fn make(pool: Option<usize>) -> Box<dyn Driver> {
@@ -39,13 +39,14 @@ pub mod a7 {
          1 => { let v: Vec<(i64,)> = parse_rows(rows)?; if append { self.p.r1.extend(v) } else { self.p.r1 = v } },
          2 => { let v: Vec<(i64,i64,)> = parse_rows(rows)?; if append { self.p.r2.extend(v) } else { self.p.r2 = v } },
          3 => { let v: Vec<(i64,i64,)> = parse_rows(rows)?; if append { self.p.r3.extend(v) } else { self.p.r3 = v } },
-         4 => { let v: Vec<(i64,i64,)> = parse_rows(rows)?; if append { self.p.r4.extend(v) } else { self.p.r4 = v } },
-         5 => { let v: Vec<(i64,i64,)> = parse_rows(rows)?; if append { self.p.r5.extend(v) } else { self.p.r5 = v } },
+         4 => { let v: Vec<(i64,)> = parse_rows(rows)?; if append { self.p.r4.extend(v) } else { self.p.r4 = v } },
+         5 => { let v: Vec<(i64,)> = parse_rows(rows)?; if append { self.p.r5.extend(v) } else { self.p.r5 = v } },
             _ => return None,
          }
          Some(())
       }
       fn run(&mut self) { match &self.pool { Some(pl) => { let p = &mut self.p; pl.install(|| p.run()) }, None => self.p.run() } }
+      fn run_here(&mut self) { self.p.run() }
       fn run_timeout(&mut self, k: usize) -> Option<bool> { let _ = k; None }
       fn dump(&self) -> String { vec![dump_rel(0, self.p.r0.iter().map(Row::render).collect()), dump_rel(1, self.p.r1.iter().map(Row::render).collect()), dump_rel(2, self.p.r2.iter().map(Row::render).collect()), dump_rel(3, self.p.r3.iter().map(Row::render).collect()), dump_rel(4, self.p.r4.iter().map(Row::render).collect()), dump_rel(5, self.p.r5.iter().map(Row::render).collect())].join(" | ") }
       fn iters(&self) -> String { format!("iters {}", self.p.scc_iters.iter().map(|x| x.to_string()).collect::<Vec<_>>().join(" ")) }
@@ -76,7 +77,7 @@ pub mod a15 {
       r4(((*v0) + 1), v0) <-- r0(v0), if ((*v0) < 6);
       r3(v1, v0) <-- r2(v0, v1), r4(v0, v0);
       r5(v0) <-- r3(v0, v1), agg v21 = max(v20) in r4(v20, (*v1));
-      r6(v0) <-- r4(v0, v1), agg v21 = count() in r3((*v1), (*v1));
+      r6(v31) <-- r0(v0), r2(v31, v32), agg v21 = max(v20) in r4(v20, (*v0));
    }
    pub struct Inst { p: Prog, pool: Option<ascent::rayon::ThreadPool> }
    pub fn make(pool: Option<usize>) -> Box<dyn Driver> {
@@ -99,6 +100,7 @@ pub mod a15 {
          Some(())
       }
       fn run(&mut self) { match &self.pool { Some(pl) => { let p = &mut self.p; pl.install(|| p.run()) }, None => self.p.run() } }
+      fn run_here(&mut self) { self.p.run() }
       fn run_timeout(&mut self, k: usize) -> Option<bool> { let _ = k; None }
       fn dump(&self) -> String { vec![dump_rel(0, self.p.r0.iter().map(Row::render).collect()), dump_rel(1, self.p.r1.iter().map(Row::render).collect()), dump_rel(2, self.p.r2.iter().map(Row::render).collect()), dump_rel(3, self.p.r3.iter().map(Row::render).collect()), dump_rel(4, self.p.r4.iter().map(Row::render).collect()), dump_rel(5, self.p.r5.iter().map(Row::render).collect()), dump_rel(6, self.p.r6.iter().map(Row::render).collect())].join(" | ") }
       fn iters(&self) -> String { format!("iters {}", self.p.scc_iters.iter().map(|x| x.to_string()).collect::<Vec<_>>().join(" ")) }
